@@ -613,6 +613,14 @@ fn finish_inner(cx: &Ctx, early: bool) -> i32 {
 	for (key, (what, _n)) in &known_hits {
 		println!("KNOWN-FINDING: property={} {} [{}]", cx.prop, what, key);
 	}
+	if std::env::var("VERIF_DEBUG").is_ok() {
+		let mut keys: Vec<&String> = unknown.iter().map(|(v, _)| &v.key).collect();
+		keys.sort();
+		keys.dedup();
+		for k in keys {
+			eprintln!("DEBUG-KEY {}", k);
+		}
+	}
 	let mut code = 0;
 	let mut reported = HashSet::new();
 	let mut confirmed = 0;
@@ -633,7 +641,8 @@ fn finish_inner(cx: &Ctx, early: bool) -> i32 {
 			match std::process::Command::new(std::env::current_exe().unwrap()).arg("replay").arg(&path).arg("--quiet").output() {
 				Ok(o) => {
 					let so = String::from_utf8_lossy(&o.stdout);
-					let same = so.lines().any(|l| l.trim() == format!("REPLAY-KEY {}", v.key));
+					let same = so.lines().any(|l| l.trim() == format!("REPLAY-KEY {}", v.key))
+						|| (v.key.contains("aborted-by-signal") && o.status.code().is_none());
 					if !same {
 						eprintln!(
 							"machinery: violation not reproduced identically in a fresh process (nondeterministic harness?)\n  key: {}\n  replay said: {}",
